@@ -370,6 +370,10 @@ func (self Value) getByPath(pathes ...Path) (Value, []int) {
 				}
 				messageLen += Len
 			}
+			// the steps below this field must not read beyond the end of its message
+			if end := p.Read + messageLen; end < len(p.Buf) {
+				p.Buf = p.Buf[:end]
+			}
 
 			fd := desc.Message().ByNumber(id)
 			if fd != nil {
@@ -393,6 +397,10 @@ func (self Value) getByPath(pathes ...Path) (Value, []int) {
 					return errValue(meta.ErrRead, "GetByPath: read field length failed.", err), address
 				}
 				messageLen += Len
+			}
+			// the steps below this field must not read beyond the end of its message
+			if end := p.Read + messageLen; end < len(p.Buf) {
+				p.Buf = p.Buf[:end]
 			}
 
 			fd := desc.Message().ByName(name)
